@@ -167,10 +167,19 @@ func (i *interpreter) indexCheck(idx value, n int, what string) int {
 		// fork on out-of-range first so that the in-range values are enumerable
 		w := s.t.S.W
 		var oob *Term
+		// n may not be representable at the index's width (uint8 index into a
+		// [256]T array): then no value of that width is >= n
+		fits := w >= 64 || uint64(n) < uint64(1)<<uint(w)
 		if kindSigned(s.k) {
-			oob = st.Or(st.BVCmp("bvslt", s.t, st.BVConst(0, w)), st.BVCmp("bvsle", st.BVConst(uint64(n), w), s.t))
-		} else {
+			fits = w >= 64 || uint64(n) < uint64(1)<<uint(w-1)
+			oob = st.BVCmp("bvslt", s.t, st.BVConst(0, w))
+			if fits {
+				oob = st.Or(oob, st.BVCmp("bvsle", st.BVConst(uint64(n), w), s.t))
+			}
+		} else if fits {
 			oob = st.BVCmp("bvule", st.BVConst(uint64(n), w), s.t)
+		} else {
+			oob = st.False
 		}
 		if i.decide(oob) {
 			i.rtPanic(fmt.Sprintf("runtime error: index out of range [symbolic] with length %d (%s) idx=%s", n, i.where(), s.t.String()))
